@@ -266,15 +266,43 @@ func Check(tier string) int {
 	t0 := time.Now()
 	rp := rep.NewReporter("C19")
 	kf := rep.LoadFindings()
-	cfg := "SPECIFICATION Spec\nCONSTANTS\n  NAlpha = 21\n  EqIdx = 10\n  MaxLen = 2\n  MaxArgs = 2\n  PairLen = 1\nCONSTRAINT Emit\nCHECK_DEADLOCK FALSE\n"
+	mkcfg := func(maxLen, pairLen int, first string, only bool) string {
+		return fmt.Sprintf("SPECIFICATION Spec\nCONSTANTS\n  NAlpha = 21\n  EqIdx = 10\n  MaxLen = %d\n  MaxArgs = 2\n  PairLen = %d\n  PairFirst = %s\n  PairsOnly = %v\nCONSTRAINT Emit\nCHECK_DEADLOCK FALSE\n", maxLen, pairLen, first, strings.ToUpper(fmt.Sprint(only)))
+	}
+	all := "{1,2,3,4,5,6,7,8,9,10,11,12,13,14,15,16,17,18,19,20,21}"
+	type job struct{ name, cfg string }
+	jobs := []job{{"Gen.cfg", mkcfg(2, 1, all, false)}}
 	if tier == "thorough" {
-		cfg = "SPECIFICATION Spec\nCONSTANTS\n  NAlpha = 21\n  EqIdx = 10\n  MaxLen = 3\n  MaxArgs = 2\n  PairLen = 2\nCONSTRAINT Emit\nCHECK_DEADLOCK FALSE\n"
+		// the enumeration is sharded: TLC's initial-state generation is super-linear in the number of configurations
+		jobs = []job{{"Gen.cfg", mkcfg(3, 1, all, false)}}
+		for k := 1; k <= 21; k++ {
+			jobs = append(jobs, job{fmt.Sprintf("Gen%d.cfg", k), mkcfg(1, 2, fmt.Sprintf("{%d}", k), true)})
+		}
 	}
-	r := tlc.Run(tlc.Opts{SpecDir: SpecDir, Extra: map[string]string{"Gen.cfg": cfg}, Module: "Args", Config: "Gen.cfg", Workers: runtime.NumCPU(), Timeout: 20 * time.Minute})
-	if !r.OK {
-		fmt.Println("ERROR: TLC did not complete:", tailS(r.Out, 2000))
-		return 2
+	outs := make([]tlc.Result, len(jobs))
+	sem := make(chan struct{}, 4)
+	var jw sync.WaitGroup
+	for i, j := range jobs {
+		jw.Add(1)
+		go func(i int, j job) {
+			defer jw.Done()
+			sem <- struct{}{}
+			defer func() { <-sem }()
+			outs[i] = tlc.Run(tlc.Opts{SpecDir: SpecDir, Extra: map[string]string{j.name: j.cfg}, Module: "Args", Config: j.name, Workers: 4, Timeout: 20 * time.Minute})
+		}(i, j)
 	}
+	jw.Wait()
+	r := tlc.Result{OK: true}
+	var allOut strings.Builder
+	for _, o := range outs {
+		if !o.OK {
+			fmt.Println("ERROR: TLC did not complete:", tailS(o.Out, 2000))
+			return 2
+		}
+		r.Distinct += o.Distinct
+		allOut.WriteString(o.Out)
+	}
+	r.Out = allOut.String()
 	cases := append(parse(r.Out), extras()...)
 	var mu sync.Mutex
 	var ms []*Mismatch
